@@ -6,6 +6,8 @@ import os
 import re
 from enum import Enum
 from html import entities as htmlentitydefs
+from types import GetSetDescriptorType
+from types import MemberDescriptorType
 from typing import TYPE_CHECKING
 from typing import Any
 from typing import Generic
@@ -229,6 +231,21 @@ def create_formatted_exception(
 
         BaseException.__init__(inst, *exc.args)
         inst.__dict__ = exc.__dict__  # type: ignore[assignment]
+
+        # State kept outside the instance dictionary (errno, strerror
+        # and filename of an OSError, the value of a StopIteration, the
+        # object of a UnicodeError, slots of a custom class).
+        for klass in type(exc).__mro__:
+            if klass is BaseException:
+                break
+            for name, attr in vars(klass).items():
+                if isinstance(attr, (MemberDescriptorType,
+                                     GetSetDescriptorType)) and \
+                        name not in ('__dict__', '__weakref__'):
+                    try:
+                        setattr(inst, name, getattr(exc, name))
+                    except (AttributeError, TypeError, ValueError):
+                        pass
 
         return inst
     except ValueError:
